@@ -79,7 +79,7 @@ func genC10(rt *rapid.T) c10Case {
 				o.Len = rapid.SampledFrom([]int{200, 70000}).Draw(rt, "bufferedLen")
 				o.K = rapid.IntRange(1, 13).Draw(rt, "bufferedHeaderBytes")
 			}
-			o.Beside = rapid.SampledFrom([]string{"", "ping", "peer-ping"}).Draw(rt, "beside")
+			o.Beside = rapid.SampledFrom([]string{"", "ping", "peer-ping", "stuck-ping-first"}).Draw(rt, "beside")
 			if o.Len < 3 {
 				o.Len = 300
 			}
@@ -466,6 +466,39 @@ func runC10(t fataler, c c10Case) (string, c10Result) {
 				}
 			}
 		case "write":
+			if during && o.Beside == "stuck-ping-first" {
+				// a message is open; a Ping of another goroutine then gets stuck in the transport
+				// holding the frame lock; the rest of the message waits for that lock with the
+				// context under test
+				if len(payload) < 10 {
+					payload = expand(ckText, 5, 300)
+				}
+				var w io.WriteCloser
+				var serr error
+				sd := e.Call(func() {
+					w, serr = conn.Writer(ctx, websocket.MessageBinary)
+					if serr == nil {
+						_, serr = w.Write(payload[:len(payload)/2])
+					}
+				})
+				if !within(sd, 10*time.Second) || serr != nil {
+					return fmt.Sprintf("op %d: opening the message failed: %v", i, serr), res
+				}
+				lc.End.SetInBudget(1)
+				e.Go(func() {
+					pctx, pcancel := context.WithTimeout(base, 30*time.Second)
+					defer pcancel()
+					conn.Ping(pctx)
+				})
+				synctest.Wait()
+				rest := payload[len(payload)/2:]
+				done = e.Call(func() {
+					if _, opErr = w.Write(rest); opErr == nil {
+						opErr = w.Close()
+					}
+				})
+				break
+			}
 			if during {
 				lc.End.SetInBudget(0)
 				if len(payload) < 10 {
@@ -544,7 +577,7 @@ func runC10(t fataler, c c10Case) (string, c10Result) {
 		if during {
 			res.During = true
 			synctest.Wait() // the call is now blocked
-			if o.Kind == "write" && o.Beside != "" {
+			if o.Kind == "write" && o.Beside != "" && o.Beside != "stuck-ping-first" {
 				// a control frame with a context of its own queues behind the blocked write
 				switch o.Beside {
 				case "ping":
